@@ -852,8 +852,9 @@ def pick_params(prop, tier, seed):
         conf = "default"
         if tier == "thorough":
             conf = (["default", "jcl", "flipA", "flipB", "flipC", "flipD", "flipE", "flipF", "flipG", "flipH"] + FLIPI)[(k + 3 * seed) % (10 + len(FLIPI))]  # three seeds see three different configurations per fixture
-        elif k % 3 == 2:
-            conf = (["jcl", "flipA", "flipB", "flipC", "flipD", "flipE", "flipF", "flipH"] + FLIPI)[(k // 3 + seed) % (8 + len(FLIPI))]
+        elif k % 3 != 0:
+            # two fixtures out of three run under a non-default configuration: the default one is what the repository's own tests exercise most
+            conf = (["jcl", "flipA", "flipB", "flipC", "flipD", "flipE", "flipF", "flipH"] + FLIPI)[(k - k // 3 + seed) % (8 + len(FLIPI))]
         if isinstance(f, tuple):
             f, conf = f
         cl = code_lines(f)
